@@ -1018,3 +1018,614 @@ def _enclosing_block(fn, node):
             if isinstance(blk, list) and any(s is node for s in blk):
                 return blk
     return None
+
+
+# ------------------------------------------------ element k depends on source element k only --
+# Statement: "unit k holds the text of page / slide / chapter k" -- at a construction site this is a NON-INTERFERENCE policy of the
+# element loop: what is handed to the element constructor (or to the helper that builds the element) in iteration k is computed from
+# the loop's own element, from values that do not change while the loop runs, and from counters.  State that is carried from one
+# iteration to the next (a local written in one iteration and read in a later one, a container / object created before the loop and
+# modified inside it, also through a helper that stores into the object it is handed) and reaches the element is how the content of
+# ANOTHER page gets into this unit (caches keyed by something weaker than the page, "previous value" fall-backs, de-duplication sets).
+# Decided by a backward slice over the loop body (data and control dependences); a flow that is not understood is `unknown`, a
+# loop-carried flow is `suspicious` (= unknown, the native replayer decides).
+_MUTATORS = {"append", "add", "extend", "update", "setdefault", "insert", "pop", "remove", "clear", "discard", "popitem", "sort", "reverse",
+             "appendleft", "popleft", "move_to_end", "write", "seek", "truncate", "put", "set", "store", "register", "cache", "remember"}
+_PURE_METHODS = {"get", "keys", "values", "items", "copy", "strip", "lstrip", "rstrip", "split", "splitlines", "join", "lower", "upper", "startswith",
+                 "endswith", "find", "findall", "iter", "index", "count", "format", "replace", "encode", "decode", "read", "getvalue", "tell",
+                 "group", "match", "search", "fullmatch", "sub", "namelist", "getinfo", "exists", "is_file", "title", "casefold", "isdigit",
+                 "partition", "rpartition", "rsplit", "zfill", "ljust", "rjust", "isspace", "hexdigest", "digest", "total_seconds", "isoformat"}
+
+
+def _base_name(e):
+    while isinstance(e, (ast.Attribute, ast.Subscript, ast.Starred)):
+        e = e.value
+    return e.id if isinstance(e, ast.Name) else None
+
+
+def _fn_locals(fn):
+    out = {a.arg for a in fn.args.args + fn.args.kwonlyargs + fn.args.posonlyargs}
+    if fn.args.vararg:
+        out.add(fn.args.vararg.arg)
+    if fn.args.kwarg:
+        out.add(fn.args.kwarg.arg)
+    for n in ast.walk(fn):
+        if isinstance(n, ast.Name) and isinstance(n.ctx, (ast.Store, ast.Del)):
+            out.add(n.id)
+    return out
+
+
+def _stores_into_param(m, callee_q, pos, kwname, depth=0, seen=None):
+    """does the module-level function store into (mutate) the object bound to its parameter (positional index / keyword)?
+    -> True / False / None (not decidable here)"""
+    seen = seen if seen is not None else set()
+    fn = m.functions.get(callee_q)
+    if fn is None:
+        return None
+    params = [a.arg for a in fn.args.posonlyargs + fn.args.args]
+    p = kwname if kwname else (params[pos] if pos is not None and pos < len(params) else None)
+    if p is None or (callee_q, p) in seen:
+        return False if p is not None else None
+    seen.add((callee_q, p))
+    for n in ast.walk(fn):
+        if isinstance(n, (ast.Assign, ast.AugAssign, ast.AnnAssign, ast.Delete)):
+            tg = n.targets if isinstance(n, (ast.Assign, ast.Delete)) else [n.target]
+            for t in tg:
+                for x in (t.elts if isinstance(t, (ast.Tuple, ast.List)) else [t]):
+                    if isinstance(x, (ast.Attribute, ast.Subscript)) and _base_name(x) == p:
+                        return True
+        if isinstance(n, ast.Call):
+            if isinstance(n.func, ast.Attribute) and _base_name(n.func.value) == p and n.func.attr in _MUTATORS:
+                return True
+            q = dotted(n.func)
+            if q in m.functions and depth < 3:
+                for i, a in enumerate(n.args):
+                    if isinstance(a, ast.Name) and a.id == p and _stores_into_param(m, q, i, None, depth + 1, seen):
+                        return True
+                for k in n.keywords:
+                    if isinstance(k.value, ast.Name) and k.value.id == p and k.arg and _stores_into_param(m, q, None, k.arg, depth + 1, seen):
+                        return True
+    return False
+
+
+def _qual(m, fn):
+    return next((q for q, f in m.functions.items() if f is fn), fn.name)
+
+
+def element_independence(m, fn, sink_names, _depth=0):
+    """-> (verdict, detail, lineno): True = nothing carried between iterations reaches the element; False = suspicious; None = not understood."""
+    body_nodes = [n for s in fn.body for n in _own_walk(s)]
+    parents = {}
+    for n in body_nodes:
+        for c in ast.iter_child_nodes(n):
+            parents[c] = n
+    # the element may be built by a helper (or the whole loop may live in one): module functions that, directly or through other
+    # module functions, call one of the named constructors / builders stand for them
+    builders = set()
+    for _round in range(4):
+        for q, f in m.functions.items():
+            if q not in builders and any(isinstance(n, ast.Call) and (dotted(n.func).split(".")[-1] in sink_names or dotted(n.func) in builders
+                                                                      or dotted(n.func).replace("self.", "").replace("cls.", "") in {b.split(".")[-1] for b in builders})
+                                         for n in ast.walk(f)):
+                builders.add(q)
+    is_sink = lambda n: isinstance(n, ast.Call) and (dotted(n.func).split(".")[-1] in sink_names or (dotted(n.func) in builders and dotted(n.func) != _qual(m, fn)))
+
+    def in_loop(n):
+        x = n
+        while x in parents:
+            x = parents[x]
+            if isinstance(x, (ast.For, ast.While, ast.ListComp, ast.GeneratorExp)):
+                return True
+        return False
+    cands = [n for n in body_nodes if is_sink(n)]
+    sinks = [n for n in cands if in_loop(n)]
+    if not sinks:
+        for n in cands:                       # the loop lives in a helper: the policy is the helper's
+            q = dotted(n.func)
+            if q in builders and _depth < 3:
+                return element_independence(m, m.functions[q], sink_names, _depth + 1)
+        return None, f"no call of {sorted(sink_names)} (or of a function that builds the element) inside a loop of {fn.name}", fn.lineno
+    locs = _fn_locals(fn)
+    results = []
+    for sk in sinks:
+        chain, x = [], sk
+        while x in parents:
+            x = parents[x]
+            chain.append(x)
+        loops = [x for x in chain if isinstance(x, (ast.For, ast.While, ast.ListComp, ast.GeneratorExp))]
+        if not loops:
+            results.append((None, f"{ast.unparse(sk.func)} is not called in a loop", sk.lineno))
+            continue
+        lp = loops[-1]                       # outermost loop around the element construction
+        if isinstance(lp, (ast.ListComp, ast.GeneratorExp)):
+            inner = list(ast.walk(lp))
+            body_stmts, targets = [], {n.id for g in lp.generators for n in ast.walk(g.target) if isinstance(n, ast.Name)}
+        else:
+            inner = [n for s in lp.body for n in _own_walk(s)]
+            body_stmts = lp.body
+            targets = {n.id for n in ast.walk(lp.target) if isinstance(n, ast.Name)} if isinstance(lp, ast.For) else set()
+        # names every iteration binds before it reads them (not upward-exposed in the loop body) are this iteration's own
+        exposed = _exposed(body_stmts, set(targets))[0] if body_stmts else set()
+        written, mutated, unknown_calls, defs = set(), {}, {}, {}
+        for n in inner:
+            if isinstance(n, (ast.Assign, ast.AugAssign, ast.AnnAssign, ast.NamedExpr)):
+                tg = n.targets if isinstance(n, ast.Assign) else [n.target]
+                val = n.value
+                for t in tg:
+                    for x in (t.elts if isinstance(t, (ast.Tuple, ast.List)) else [t]):
+                        if isinstance(x, ast.Starred):
+                            x = x.value
+                        if isinstance(x, ast.Name):
+                            written.add(x.id)
+                            defs.setdefault(x.id, []).append((n, val, isinstance(n, ast.AugAssign)))
+                        elif isinstance(x, (ast.Attribute, ast.Subscript)) and _base_name(x):
+                            mutated.setdefault(_base_name(x), n)
+            elif isinstance(n, (ast.For, ast.comprehension)):
+                for x in ast.walk(n.target):
+                    if isinstance(x, ast.Name):
+                        written.add(x.id)
+                        defs.setdefault(x.id, []).append((n, n.iter, False))
+            elif isinstance(n, ast.withitem) and n.optional_vars is not None:
+                for x in ast.walk(n.optional_vars):
+                    if isinstance(x, ast.Name):
+                        written.add(x.id)
+                        defs.setdefault(x.id, []).append((n, n.context_expr, False))
+            elif isinstance(n, ast.Delete):
+                for t in n.targets:
+                    if _base_name(t):
+                        mutated.setdefault(_base_name(t), n)
+            elif isinstance(n, ast.Call):
+                if isinstance(n.func, ast.Attribute) and _base_name(n.func.value) in locs:
+                    b = _base_name(n.func.value)
+                    if n.func.attr in _MUTATORS:
+                        mutated.setdefault(b, n)
+                    elif n.func.attr not in _PURE_METHODS:
+                        unknown_calls.setdefault(b, n)
+                q = dotted(n.func)
+                if q in m.functions:
+                    for i, a in enumerate(n.args):
+                        if isinstance(a, ast.Name) and a.id in locs and _stores_into_param(m, q, i, None):
+                            mutated.setdefault(a.id, n)
+                    for k in n.keywords:
+                        if isinstance(k.value, ast.Name) and k.value.id in locs and k.arg and _stores_into_param(m, q, None, k.arg):
+                            mutated.setdefault(k.value.id, n)
+
+        def counter(name):
+            """a loop-carried number: every write is `n += e` / `n = n + e` / the result of a call that n itself is threaded through"""
+            ds = defs.get(name, [])
+            if not ds:
+                return False
+            for node, val, aug in ds:
+                if aug and isinstance(node.op, (ast.Add, ast.Sub)):
+                    continue
+                if isinstance(val, ast.BinOp) and isinstance(val.op, (ast.Add, ast.Sub)) and isinstance(val.left, ast.Name) and val.left.id == name:
+                    continue
+                if isinstance(val, ast.Call) and dotted(val.func) in m.functions and any(isinstance(a, ast.Name) and a.id == name for a in val.args) \
+                        and isinstance(node, ast.Assign) and isinstance(node.targets[0], ast.Tuple):
+                    cf = m.functions[dotted(val.func)]
+                    ps = cf.args.posonlyargs + cf.args.args
+                    i = next(i for i, a in enumerate(val.args) if isinstance(a, ast.Name) and a.id == name)
+                    if i < len(ps) and ps[i].annotation is not None and ast.unparse(ps[i].annotation) == "int":
+                        continue
+                return False
+            return True
+
+        fresh = (written - exposed) | set(targets)
+        carried = {}
+        for nme in written:
+            if nme in locs and nme in exposed and nme not in targets and not counter(nme):
+                carried[nme] = f"`{nme}` is written in one iteration and may be read in a later one (line {defs[nme][0][0].lineno if hasattr(defs[nme][0][0], 'lineno') else lp.lineno})"
+        for nme, node in mutated.items():
+            if nme in locs and nme not in fresh and nme not in written:
+                carried[nme] = f"`{nme}` exists before the loop and is modified inside it (line {node.lineno})"
+        maybe = {nme: node for nme, node in unknown_calls.items() if nme in locs and nme not in fresh and nme not in written and nme not in carried}
+        # backward slice from the sink's arguments: data dependences through the loop's assignments, control dependences through the
+        # tests of the statements that enclose a relevant assignment or the sink itself
+        work, seen_n, hit, hit_maybe = [], set(), None, None
+        ctrl_of = lambda node: [x.test for x in _chain(parents, node, lp) if isinstance(x, (ast.If, ast.While, ast.IfExp))]
+
+        called = set()
+
+        def push(expr):
+            for x in ast.walk(expr):
+                if isinstance(x, ast.Name) and isinstance(x.ctx, ast.Load) and x.id in locs and x.id not in seen_n:
+                    seen_n.add(x.id)
+                    work.append(x.id)
+                elif isinstance(x, ast.Call) and dotted(x.func) in m.functions:
+                    called.add(dotted(x.func))
+        push(sk)
+        for a in list(sk.args) + [k.value for k in sk.keywords]:
+            push(a)
+        for t in ctrl_of(sk):
+            push(t)
+        # the element is also missing / kept depending on what guards `continue` / `break` in the loop
+        for n in inner:
+            if isinstance(n, (ast.Continue, ast.Break)):
+                for t in ctrl_of(n):
+                    push(t)
+        while work:
+            nme = work.pop()
+            if nme in carried and hit is None:
+                hit = carried[nme]
+            if nme in maybe and hit_maybe is None:
+                hit_maybe = f"`{nme}` exists before the loop and `{ast.unparse(maybe[nme].func)}` may modify it (line {maybe[nme].lineno})"
+            for node, val, _aug in defs.get(nme, []):
+                if val is not None:
+                    push(val)
+                if isinstance(node, ast.AST) and node in parents:
+                    for t in ctrl_of(node):
+                        push(t)
+        if not hit:
+            for q in sorted(called):
+                g = _module_state_written(m, q)
+                if g:
+                    hit = f"`{q}` (called for the element) modifies the module-level object `{g}`, which outlives the iteration"
+                    break
+        if hit:
+            results.append((False, f"state carried between iterations reaches {ast.unparse(sk.func)}(...): {hit}", sk.lineno))
+        elif hit_maybe:
+            results.append((None, f"cannot tell whether the element depends on earlier iterations: {hit_maybe}", sk.lineno))
+        else:
+            results.append((True, f"arguments of {ast.unparse(sk.func)}(...) are computed from the loop element, loop-invariant values and counters only "
+                                  f"(slice: {sorted(seen_n)})", sk.lineno))
+    for v in (False, None):
+        for r in results:
+            if r[0] is v:
+                return r
+    return results[0]
+
+
+def _reads(node):
+    bound = {x.id for n in ast.walk(node) if isinstance(n, ast.comprehension) for x in ast.walk(n.target) if isinstance(x, ast.Name)}
+    out = set()
+    for n in _own_walk(node):
+        if isinstance(n, ast.Name) and isinstance(n.ctx, ast.Load) and n.id not in bound:
+            out.add(n.id)
+    return out
+
+
+def _targets(t):
+    out = set()
+    for x in ast.walk(t):
+        if isinstance(x, ast.Name) and isinstance(x.ctx, ast.Store):
+            out.add(x.id)
+    return out
+
+
+def _exposed(stmts, defined):
+    """upward-exposed reads of a statement list: names that may be read before this list has bound them.
+    -> (exposed, must-defined afterwards, every path left the list by continue / break / return / raise)"""
+    exposed, defined = set(), set(defined)
+    for s in stmts:
+        if isinstance(s, (ast.Assign, ast.AnnAssign)):
+            if getattr(s, "value", None) is not None:
+                exposed |= _reads(s.value) - defined
+            for t in (s.targets if isinstance(s, ast.Assign) else [s.target]):
+                if isinstance(t, (ast.Name, ast.Tuple, ast.List)):
+                    if getattr(s, "value", None) is not None:
+                        defined |= _targets(t)
+                else:
+                    exposed |= _reads(t) - defined
+        elif isinstance(s, ast.AugAssign):
+            exposed |= (_reads(s.value) | _reads(s.target) | ({s.target.id} if isinstance(s.target, ast.Name) else set())) - defined
+        elif isinstance(s, ast.If):
+            exposed |= _reads(s.test) - defined
+            e1, d1, t1 = _exposed(s.body, defined)
+            e2, d2, t2 = _exposed(s.orelse, defined)
+            exposed |= e1 | e2
+            if t1 and t2:
+                return exposed, defined, True
+            defined = d2 if t1 else d1 if t2 else (d1 & d2)
+        elif isinstance(s, (ast.For, ast.AsyncFor)):
+            exposed |= _reads(s.iter) - defined
+            e1, _d, _t = _exposed(s.body, defined | _targets(s.target))
+            e2, _d, _t = _exposed(s.orelse, defined)
+            exposed |= e1 | e2
+        elif isinstance(s, ast.While):
+            exposed |= _reads(s.test) - defined
+            e1, _d, _t = _exposed(s.body, defined)
+            exposed |= e1 | _exposed(s.orelse, defined)[0]
+        elif isinstance(s, (ast.With, ast.AsyncWith)):
+            for it in s.items:
+                exposed |= _reads(it.context_expr) - defined
+                if it.optional_vars is not None:
+                    defined |= _targets(it.optional_vars)
+            e1, d1, t1 = _exposed(s.body, defined)
+            exposed |= e1
+            defined = d1
+            if t1:
+                return exposed, defined, True
+        elif isinstance(s, ast.Try):
+            e1, d1, t1 = _exposed(s.body, defined)
+            exposed |= e1
+            outs = [] if t1 else [d1]
+            for h in s.handlers:
+                eh, dh, th = _exposed(h.body, defined | ({h.name} if h.name else set()))
+                exposed |= eh
+                if not th:
+                    outs.append(dh)
+            if s.orelse:
+                eo, do, to = _exposed(s.orelse, d1)
+                exposed |= eo
+                if not t1:
+                    outs[0] = do
+            if not outs:
+                ef = _exposed(s.finalbody, defined)[0]
+                return exposed | ef, defined, True
+            nd = set.intersection(*outs)
+            ef, df, tf = _exposed(s.finalbody, nd)
+            exposed |= ef
+            defined = df
+        elif isinstance(s, (ast.Continue, ast.Break, ast.Raise, ast.Return)):
+            exposed |= _reads(s) - defined
+            return exposed, defined, True
+        elif isinstance(s, (ast.FunctionDef, ast.AsyncFunctionDef, ast.ClassDef)):
+            defined.add(s.name)
+        else:
+            exposed |= _reads(s) - defined
+            for n in _own_walk(s):                     # walrus
+                if isinstance(n, ast.NamedExpr):
+                    defined |= _targets(n.target)
+    return exposed, defined, False
+
+
+def _module_state_written(m, q, depth=0, seen=None):
+    """name of a module-level object that the module function q (or a module function it calls) modifies in place or rebinds, else None"""
+    seen = seen if seen is not None else set()
+    fn = m.functions.get(q)
+    if fn is None or q in seen:
+        return None
+    seen.add(q)
+    globs = {n for x in ast.walk(fn) if isinstance(x, ast.Global) for n in x.names}
+    locs = _fn_locals(fn) - globs
+    is_mod = lambda name: name is not None and name not in locs and name in m.assigns
+    for n in ast.walk(fn):
+        if isinstance(n, (ast.Assign, ast.AugAssign, ast.AnnAssign, ast.Delete)):
+            for t in (n.targets if isinstance(n, (ast.Assign, ast.Delete)) else [n.target]):
+                for x in (t.elts if isinstance(t, (ast.Tuple, ast.List)) else [t]):
+                    if isinstance(x, (ast.Attribute, ast.Subscript)) and is_mod(_base_name(x)):
+                        return _base_name(x)
+                    if isinstance(x, ast.Name) and x.id in globs:
+                        return x.id
+        elif isinstance(n, ast.Call):
+            if isinstance(n.func, ast.Attribute) and n.func.attr in _MUTATORS and is_mod(_base_name(n.func.value)) \
+                    and not isinstance(m.assigns.get(_base_name(n.func.value)), ast.Call):
+                return _base_name(n.func.value)
+            cq = dotted(n.func)
+            if cq in m.functions and depth < 2:
+                g = _module_state_written(m, cq, depth + 1, seen)
+                if g:
+                    return g
+    return None
+
+
+def _chain(parents, node, stop):
+    x = node
+    while x in parents and x is not stop:
+        x = parents[x]
+        if x is stop:
+            break
+        yield x
+
+
+def _own_walk(s):
+    """nodes of a statement, not entering nested function / class definitions"""
+    todo = [s]
+    while todo:
+        n = todo.pop()
+        yield n
+        for c in ast.iter_child_nodes(n):
+            if not isinstance(c, (ast.FunctionDef, ast.AsyncFunctionDef, ast.ClassDef, ast.Lambda)):
+                todo.append(c)
+
+
+INDEPENDENCE_SITES = [
+    # (module, function, calls that build / receive the element, obligation id)
+    ("pdf/pdf_extractor.py", "read_pdf", {"PdfPage"}, "C03/pdf_extractor.py::read_pdf/policy#page-k-element-is-computed-from-page-k-only"),
+    ("open_office/odp_extractor.py", "read_odp", {"_extract_slide", "OdpSlide"}, "C03/odp_extractor.py::read_odp/policy#slide-k-element-is-computed-from-draw:page-k-only"),
+    ("epub_extractor.py", "read_epub", {"_extract_chapter", "EpubChapter"}, "C03/epub_extractor.py::read_epub/policy#chapter-k-element-is-computed-from-spine-item-k-only"),
+    ("mail/mbox_email_extractor.py", "read_mbox_format_mail", {"parse_email_message", "message_from_bytes"},
+     "C03/mbox_email_extractor.py::read_mbox_format_mail/policy#message-k-element-is-computed-from-message-k-only"),
+    ("ms_modern/pptx_extractor.py", "read_pptx", {"_process_slide_from_context", "PptxSlide"},
+     "C03/pptx_extractor.py::read_pptx/policy#slide-k-element-is-computed-from-slide-part-k-only"),
+    ("open_office/ods_extractor.py", "read_ods", {"_extract_sheet", "OdsSheet"}, "C03/ods_extractor.py::read_ods/policy#sheet-k-element-is-computed-from-table-k-only"),
+    ("ms_modern/xlsx_extractor.py", "read_xlsx", {"XlsxSheet"}, "C03/xlsx_extractor.py::read_xlsx/policy#sheet-k-element-is-computed-from-worksheet-k-only"),
+    ("ms_legacy/xls_extractor.py", "read_xls", {"XlsSheet"}, "C03/xls_extractor.py::read_xls/policy#sheet-k-element-is-computed-from-worksheet-k-only"),
+]
+
+
+def independence_sites(repo, tier):
+    C = Checks()
+    for rel_, fnq, sinks, oid in INDEPENDENCE_SITES:
+        rel = EX + rel_
+        try:
+            m = loader.module(rel, repo)
+            fn = m.functions.get(fnq)
+            if fn is None:
+                C.add(oid, None, f"{fnq} missing")
+                continue
+            v, detail, line = element_independence(m, fn, sinks)
+            C.add(oid, v, detail, f"{rel}:{line}")
+            C.fn(m, fnq)
+        except Exception as e:  # noqa -- never let an exception escape (would be a false alarm)
+            C.add(oid, None, f"analysis failed: {type(e).__name__}: {e}"[:200])
+    return {"obligations": C.obls, "functions": C.fns}
+
+
+# ------------------------------------------------ where the elements of a slide's text come from --
+# Statement: "the units cover the body exactly" -- the text of a slide's unit is the text ON the slide.  In an ODF drawing page the
+# speaker notes are a child <presentation:notes> of the <draw:page> that holds its own frames, so a walk that reaches the frames of
+# the slide by a DESCENDANT step from the page (Element.iter, an XPath with //, a recursive helper) also reaches the notes frames.
+# Policy: following the paragraph whose text is stored into title / body_text / other_text back to the page parameter, the FIRST
+# navigation step away from the page is a child step (find / findall / iterfind with a plain tag, iteration over the element).
+# Decided on the def-use chain of the real function; anything not followed (helpers, generators) is `unknown`.
+_CHILD_STEPS = {"find", "findall", "iterfind"}
+_DESC_STEPS = {"iter", "itertext", "getiterator"}
+
+
+def _nav_chain(fn, expr, at, params, depth=0):
+    """-> list of chains; a chain is a list of steps ('param'|'child'|'desc'|'unknown', text) and of bookkeeping steps for tuples
+    put into / taken out of lists, first step first.  `at` is the node where `expr` is evaluated (reaching definitions)."""
+    if depth > 16:
+        return [[("unknown", "too deep")]]
+    rec = lambda e, a=at: _nav_chain(fn, e, a, params, depth + 1)
+    if isinstance(expr, ast.Call) and isinstance(expr.func, ast.Attribute) and expr.func.attr in _CHILD_STEPS | _DESC_STEPS:
+        arg = expr.args[0] if expr.args else None
+        path = arg.value if isinstance(arg, ast.Constant) and isinstance(arg.value, str) else None
+        kind = "child" if expr.func.attr in _CHILD_STEPS and not (path is not None and "//" in path) else "desc"
+        if expr.func.attr in _CHILD_STEPS and path is None and not isinstance(arg, (ast.Name, ast.Attribute)):
+            kind = "unknown"
+        return [c + [(kind, ast.unparse(expr)[:60])] for c in rec(expr.func.value)]
+    if isinstance(expr, ast.Call) and dotted(expr.func) in ("list", "tuple", "iter", "sorted", "reversed") and expr.args:
+        return rec(expr.args[0])
+    if isinstance(expr, ast.Name):
+        defs = _reaching_defs(fn, expr.id, at)
+        if not defs and expr.id in params:
+            return [[("param", expr.id)]]
+        out = []
+        for kind, node, pos, where in defs:
+            if kind == "assign":
+                cs = rec(node, where)
+                out += [c + [("elem", pos)] for c in cs] if pos is not None else cs
+            elif kind == "iter":                  # bound by a loop / comprehension over node (component pos of the element)
+                out += [c + [("elem", pos)] for c in rec(node, where)]
+            elif kind == "append":                # list filled by .append(node) / .extend(node)
+                out += [c + [("mk", None)] for c in rec(node, where)]
+        return out or [[("unknown", f"`{expr.id}` has no definition that is understood")]]
+    if isinstance(expr, ast.Tuple):
+        return [c + [("tuple", i)] for i, e in enumerate(expr.elts) for c in rec(e)]
+    if isinstance(expr, (ast.ListComp, ast.GeneratorExp)):
+        return [c + [("mk", None)] for c in _nav_chain(fn, expr.elt, expr.elt, params, depth + 1)]
+    if isinstance(expr, ast.Constant) or (isinstance(expr, ast.List) and not expr.elts):
+        return []
+    return [[("unknown", ast.unparse(expr)[:60])]]
+
+
+_PARENTS = {}
+
+
+def _parents_of(fn):
+    key = id(fn)
+    if key not in _PARENTS or _PARENTS[key][0] is not fn:
+        par = {}
+        for n in ast.walk(fn):
+            for c in ast.iter_child_nodes(n):
+                par[id(c)] = n
+        _PARENTS[key] = (fn, par)
+    return _PARENTS[key][1]
+
+
+def _binds(target, name):
+    """position of `name` in a loop / assignment target: None (the whole value), (i, n) (component), or False"""
+    if isinstance(target, ast.Name):
+        return None if target.id == name else False
+    if isinstance(target, (ast.Tuple, ast.List)):
+        for i, x in enumerate(target.elts):
+            if isinstance(x, ast.Name) and x.id == name:
+                return (i, len(target.elts))
+    return False
+
+
+def _reaching_defs(fn, name, at):
+    """definitions of a local that reach the use at node `at`: the innermost enclosing loop / comprehension that binds it, else the
+    assignments and list-filling calls textually in front of the use.  -> [(kind, expr, component, node where expr is evaluated)]"""
+    par = _parents_of(fn)
+    x, prev = at, None
+    while id(x) in par:
+        prev, x = x, par[id(x)]
+        if isinstance(x, (ast.For, ast.AsyncFor)) and prev is not x.iter and _binds(x.target, name) is not False:
+            return [("iter", x.iter, _binds(x.target, name), x)]
+        if isinstance(x, (ast.ListComp, ast.GeneratorExp, ast.SetComp, ast.DictComp)):
+            for g in x.generators:
+                if _binds(g.target, name) is not False and prev is not g:
+                    return [("iter", g.iter, _binds(g.target, name), x)]
+    line = getattr(at, "lineno", 10 ** 9)
+    out = []
+    for n in ast.walk(fn):
+        if getattr(n, "lineno", 10 ** 9) > line:
+            continue
+        if isinstance(n, (ast.Assign, ast.AnnAssign)) and getattr(n, "value", None) is not None and n.lineno < line:
+            for t in (n.targets if isinstance(n, ast.Assign) else [n.target]):
+                b = _binds(t, name)
+                if b is not False:
+                    out.append(("assign", n.value, b, n))
+        elif isinstance(n, ast.Call) and isinstance(n.func, ast.Attribute) and isinstance(n.func.value, ast.Name) and n.func.value.id == name \
+                and n.func.attr in ("append", "extend", "add", "insert") and n.args and n.lineno < line:
+            out.append(("append", n.args[-1], None, n))
+    return out
+
+
+def _simplify_chain(chain):
+    """cancel tuple construction against tuple unpacking: [.., ('tuple', i), ('mk'), ('elem', (j, n))] keeps the chain iff i == j"""
+    out = []
+    for st in chain:
+        if st[0] == "elem" and st[1] is not None and len(out) >= 2 and out[-1][0] == "mk" and out[-2][0] == "tuple":
+            i = out[-2][1]
+            out = out[:-2]
+            if i != st[1][0]:
+                return None                   # another component of the tuple: not the element followed
+            continue
+        if st[0] == "elem" and st[1] is None and out and out[-1][0] == "mk":
+            out = out[:-1]
+            continue
+        out.append(st)
+    return out
+
+
+def slide_text_navigation(repo, tier):
+    C = Checks()
+    rel = EX + "open_office/odp_extractor.py"
+    oid = "C03/odp_extractor.py::_extract_slide/policy#slide-text-is-taken-from-the-page's-own-frames-not-from-its-notes-page"
+    try:
+        m = loader.module(rel, repo)
+        cands = [(q, f) for q, f in m.functions.items() if len(f.args.args) >= 2 and
+                 {"body_text", "other_text"} <= {n.attr for n in ast.walk(f) if isinstance(n, ast.Attribute)} and "notes" in {n.attr for n in ast.walk(f) if isinstance(n, ast.Attribute)}]
+        if len(cands) != 1:
+            C.add(oid, None, f"{len(cands)} functions store slide text")
+            return {"obligations": C.obls, "functions": C.fns}
+        q, fn = cands[0]
+        params = {a.arg for a in fn.args.args + fn.args.kwonlyargs}
+        stores = []
+        for lp in ast.walk(fn):
+            if isinstance(lp, ast.For):
+                own = [n for s in lp.body for n in _own_walk(s) if not isinstance(n, ast.For)]
+                direct = [n for s in lp.body for n in _own_walk(s)]
+                inner_for = [n for n in direct if isinstance(n, ast.For)]
+                in_inner = {id(x) for f2 in inner_for for x in ast.walk(f2)}
+                for n in direct:
+                    if id(n) in in_inner:
+                        continue
+                    if (isinstance(n, ast.Call) and isinstance(n.func, ast.Attribute) and n.func.attr in ("append", "extend") and
+                            isinstance(n.func.value, ast.Attribute) and n.func.value.attr in ("body_text", "other_text")) or \
+                            (isinstance(n, ast.Assign) and any(isinstance(t, ast.Attribute) and t.attr == "title" for t in n.targets)):
+                        stores.append((lp, n))
+        if not stores:
+            C.add(oid, None, "no loop stores into title / body_text / other_text")
+            return {"obligations": C.obls, "functions": C.fns}
+        verdict, details = True, []
+        for lp in {id(l): l for l, _n in stores}.values():
+            chains = [_simplify_chain(c) for c in _nav_chain(fn, lp.iter, lp, params)]
+            chains = [c for c in chains if c is not None]
+            if not chains:
+                verdict = None
+                details.append(f"line {lp.lineno}: origin of {ast.unparse(lp.iter)[:40]} not found")
+                continue
+            for c in chains:
+                steps = [s for s in c if s[0] in ("child", "desc", "unknown", "param")]
+                txt = " / ".join(s[1] if isinstance(s[1], str) else str(s[1]) for s in steps)
+                if not steps or steps[0][0] != "param" or any(s[0] in ("mk", "tuple") or (s[0] == "elem" and s[1] is not None) for s in c):
+                    verdict = None if verdict is not False else verdict
+                    details.append(f"line {lp.lineno}: walk not followed back to a parameter: {txt}")
+                elif len(steps) < 2 or steps[1][0] == "unknown":
+                    verdict = None if verdict is not False else verdict
+                    details.append(f"line {lp.lineno}: first step from `{steps[0][1]}` not understood: {txt}")
+                elif steps[1][0] == "desc":
+                    verdict = False
+                    details.append(f"line {lp.lineno}: the first step from `{steps[0][1]}` is a descendant walk ({steps[1][1]}): it also reaches the frames of <presentation:notes>")
+                else:
+                    details.append(f"line {lp.lineno}: {txt}")
+        C.add(oid, verdict, "; ".join(details)[:600], f"{rel}:{fn.lineno}")
+        C.fn(m, q)
+    except Exception as e:  # noqa
+        C.add(oid, None, f"analysis failed: {type(e).__name__}: {e}"[:200])
+    return {"obligations": C.obls, "functions": C.fns}
